@@ -1238,6 +1238,11 @@ func (s *Server) cmdRestore(db int, args [][]byte) resp.Reply {
 	if binary.LittleEndian.Uint64(foot[2:]) != want {
 		return resp.Err("ERR DUMP payload version or checksum are wrong")
 	}
+	if s.BadFormatKeys[string(args[0])] {
+		// a server that cannot load this serialization (sanitize-dump-payload, an encoding it does not know): restoreCommand
+		// answers this after the BUSYKEY and footer checks, leaving the keyspace untouched
+		return resp.Err("ERR Bad data format")
+	}
 	v := s.RestoreRegistry[string(body)]
 	if v == nil {
 		v = &Value{Type: "opaque", Opaque: append([]byte{}, body...)}
